@@ -58,7 +58,8 @@ def _finding_fixed(prefix):
                                          "known_findings.json")))
     except Exception:
         return False
-    return any(str(e.get("id", "")).startswith(prefix) and e.get("status") == "fixed" for e in kf)
+    return any(e.get("property") == ID and str(e.get("id", "")).startswith(prefix) and e.get("status") == "fixed"
+               for e in kf)
 
 
 # S51 (proposed_fixes/S51-*.diff): the all-default sub-fibers that updatePayloadsBelow empties keep the
@@ -66,7 +67,8 @@ def _finding_fixed(prefix):
 # a later tuple/pair flatten over that level then compares them with tuple shapes / ranges and raises
 # TypeError (Rank.append max(old, new) on shape-less tensors, _mergeRanksHelper min/max otherwise).
 # While the finding is open the chains generator keeps split away from shape-less tensors and from
-# "U" ranks; as soon as known_findings.json records S51 as fixed the whole domain is generated again,
+# "U" ranks; as soon as known_findings.json records a C14 finding S51* as fixed the whole domain
+# (and the chain template "S" aimed at it) is generated again,
 # so the check reports the defect if it returns.
 S51_FIXED = _finding_fixed("S51")
 
